@@ -19,7 +19,7 @@ CHECKS = {
    level="model_checking",
    text="For each column type (31 generated fixed-width codecs, String, Bytes, Bool, UUID, FixedString(N), Nothing, Point, Interval, Enum8/16, DateTime, DateTime64(p)) and for Array/Nullable/LowCardinality/Map/Tuple compositions up to depth 2, the real EncodeBlock -> DecodeBlock path is executed symbolically with all cell values, string bytes, pre-existing buffer bytes and the protocol revision symbolic; the solver decides: prefix untouched, bytes independent of the buffer's prior content, typed decode == appended values, inferred decode (Results.Auto) == same name/type/values, reader exhausted. Both the default (unsafe) and the purego build are encoded for the leaf codecs.",
    ref="DESIGN.md §4 C01",
-   note="bounds: rows<=2 (quick)/3-4 (thorough), inner arrays/maps <=2, strings <=1-2 bytes, buffer prefix in {0,3,8} bytes, depth<=2; Decimal(P, S) as servers spell it through Results.Auto() for every P in 1..76; outside: dictionaries >3 entries except the key-width boundaries of VerifC01Boundaries, ColMap.Append(map) iteration order, JSON, non-UTC zones; Array(Array(T)), FixedString(N) with N not a power of two, Bytes, Point and Map are not inferable by the library and are checked typed only; reflect calls in ColAuto.Infer go through a method-set model; bswap.swap64 (asm) is modelled natively"),
+   note="bounds: rows<=2 (quick)/3-4 (thorough), inner arrays/maps <=2, strings <=1-2 bytes, buffer prefix in {0,3,8} bytes, depth<=2; Decimal(P, S) as servers spell it through Results.Auto() for every P in 1..76; LowCardinality dictionaries of 254..257 entries (UInt8/UInt16 key switch) and strings of 127/128 bytes (VerifC01Boundaries); outside: other dictionaries >3 entries, the UInt16/UInt32 key switch at 65536 entries (about 4 GB per symbolic path), ColMap.Append(map) iteration order, JSON, non-UTC zones; Array(Array(T)), FixedString(N) with N not a power of two, Bytes, Point and Map are not inferable by the library and are checked typed only; reflect calls in ColAuto.Infer go through a method-set model; bswap.swap64 (asm) is modelled natively"),
  "C07": dict(
    level="model_checking",
    text="For every block shape of C01 (all leaf codecs, compositions to depth 2) and every protocol message of C17 the library's own encoder output is cut at EVERY position 0..len-1 (enumerated) with symbolic contents and revision, and the real decoder (typed and inferred) is executed on the prefix; the assertion is a non-nil error on every path.",
